@@ -1,0 +1,196 @@
+//! Verification hooks (cargo feature `verif-hooks`, off by default).
+//!
+//! Nothing in here is compiled unless the feature is enabled. The hooks let an
+//! external monitor
+//!
+//! * override the detected hardware parallelism of `prayer_times_dt_rng_block`,
+//! * record an ordered event log of the spawn / send / receive / drop / join
+//!   points of the parallel path,
+//! * perturb the schedule at those points (seeded yields / short sleeps).
+//!
+//! The state is process-global and thread-safe; one monitored run at a time.
+
+use std::sync::atomic::{AtomicU64, AtomicUsize, Ordering};
+use std::sync::Mutex;
+use std::time::Duration;
+
+use chrono::{Datelike, NaiveDate};
+
+/// Which thread of the parallel range computation reached a point.
+#[derive(Debug, Clone, Copy, PartialEq, Eq, Hash)]
+pub enum Role {
+    Main,
+    Collector,
+    Worker,
+}
+
+/// One recorded event.
+#[derive(Debug, Clone)]
+pub struct Event {
+    /// Global order (single atomic counter).
+    pub seq: u64,
+    /// Hash of the OS thread id that reached the point.
+    pub thread: u64,
+    pub role: Role,
+    pub point: &'static str,
+    /// First / last date (days from CE) of the partition or partial map, or 0.
+    pub first: i32,
+    pub last: i32,
+    /// Number of entries (days) the point refers to.
+    pub entries: usize,
+    /// Every date carried by the partial map (send / recv points only).
+    pub dates: Vec<i32>,
+}
+
+static PLL_OVERRIDE: AtomicUsize = AtomicUsize::new(0);
+static SEQ: AtomicU64 = AtomicU64::new(0);
+static PERTURB_SEED: AtomicU64 = AtomicU64::new(0);
+static PERTURB_MAX_SLEEP_US: AtomicU64 = AtomicU64::new(0);
+static PERTURB_CTR: AtomicU64 = AtomicU64::new(0);
+static RECORDING: AtomicUsize = AtomicUsize::new(0);
+static LOG: Mutex<Vec<Event>> = Mutex::new(Vec::new());
+
+/// Sets (`n > 0`) or clears (`n == 0`) the parallelism override.
+pub fn set_parallelism_override(n: usize) {
+    PLL_OVERRIDE.store(n, Ordering::SeqCst);
+}
+
+/// Returns the parallelism override, if any.
+pub fn parallelism_override() -> Option<usize> {
+    match PLL_OVERRIDE.load(Ordering::SeqCst) {
+        0 => None,
+        n => Some(n),
+    }
+}
+
+/// Enables (`seed != 0`) or disables schedule perturbation.
+pub fn set_perturbation(seed: u64, max_sleep_us: u64) {
+    PERTURB_SEED.store(seed, Ordering::SeqCst);
+    PERTURB_MAX_SLEEP_US.store(max_sleep_us, Ordering::SeqCst);
+    PERTURB_CTR.store(0, Ordering::SeqCst);
+}
+
+/// Starts recording events into a fresh log.
+pub fn start_recording() {
+    LOG.lock().unwrap_or_else(|e| e.into_inner()).clear();
+    SEQ.store(0, Ordering::SeqCst);
+    RECORDING.store(1, Ordering::SeqCst);
+}
+
+/// Stops recording and returns the log, ordered by `seq`.
+pub fn stop_recording() -> Vec<Event> {
+    RECORDING.store(0, Ordering::SeqCst);
+    let mut log = std::mem::take(&mut *LOG.lock().unwrap_or_else(|e| e.into_inner()));
+    log.sort_by_key(|e| e.seq);
+    log
+}
+
+/// Copy of the log so far (for watchdogs inspecting a stuck run).
+pub fn snapshot() -> Vec<Event> {
+    let mut log = LOG.lock().unwrap_or_else(|e| e.into_inner()).clone();
+    log.sort_by_key(|e| e.seq);
+    log
+}
+
+/// Number of events recorded so far (progress counter for watchdogs).
+pub fn seq() -> u64 {
+    SEQ.load(Ordering::SeqCst)
+}
+
+fn mix(mut z: u64) -> u64 {
+    z = z.wrapping_add(0x9E3779B97F4A7C15);
+    z = (z ^ (z >> 30)).wrapping_mul(0xBF58476D1CE4E5B9);
+    z = (z ^ (z >> 27)).wrapping_mul(0x94D049BB133111EB);
+    z ^ (z >> 31)
+}
+
+fn thread_hash() -> u64 {
+    use std::hash::{Hash, Hasher};
+    let mut h = std::collections::hash_map::DefaultHasher::new();
+    std::thread::current().id().hash(&mut h);
+    h.finish()
+}
+
+fn perturb(role: Role, point: &'static str) {
+    let seed = PERTURB_SEED.load(Ordering::Relaxed);
+    if seed == 0 {
+        return;
+    }
+    let n = PERTURB_CTR.fetch_add(1, Ordering::Relaxed);
+    let mut h = mix(seed ^ mix(n));
+    h = mix(h ^ (role as u64) ^ ((point.len() as u64) << 8) ^ ((point.as_bytes()[0] as u64) << 16));
+    match h % 10 {
+        0..=3 => {}
+        4..=6 => {
+            for _ in 0..(1 + (h >> 8) % 8) {
+                std::thread::yield_now();
+            }
+        }
+        _ => {
+            let max = PERTURB_MAX_SLEEP_US.load(Ordering::Relaxed);
+            if max > 0 {
+                std::thread::sleep(Duration::from_micros((h >> 16) % (max + 1)));
+            } else {
+                std::thread::yield_now();
+            }
+        }
+    }
+}
+
+/// A monitored point: perturbs the schedule (before the event is logged, so
+/// that the delay sits between the previous operation and this one), then
+/// appends the event.
+pub fn point(role: Role, point: &'static str, first: i32, last: i32, entries: usize) {
+    point_dates(role, point, first, last, entries, Vec::new());
+}
+
+fn point_dates(
+    role: Role,
+    point: &'static str,
+    first: i32,
+    last: i32,
+    entries: usize,
+    dates: Vec<i32>,
+) {
+    perturb(role, point);
+    if RECORDING.load(Ordering::SeqCst) == 0 {
+        return;
+    }
+    let mut log = LOG.lock().unwrap_or_else(|e| e.into_inner());
+    // The sequence number is taken under the same lock that appends the
+    // event, so log order and `seq` order can never disagree.
+    let seq = SEQ.fetch_add(1, Ordering::SeqCst);
+    log.push(Event {
+        seq,
+        thread: thread_hash(),
+        role,
+        point,
+        first,
+        last,
+        entries,
+        dates,
+    });
+}
+
+/// A point that refers to a date range (partition handed to a worker).
+pub fn point_range(role: Role, name: &'static str, start: &NaiveDate, end: &NaiveDate, days: usize) {
+    point(
+        role,
+        name,
+        start.num_days_from_ce(),
+        end.num_days_from_ce(),
+        days,
+    );
+}
+
+/// A point that refers to a partial result map (send / recv).
+pub fn point_map<V>(
+    role: Role,
+    name: &'static str,
+    map: &std::collections::BTreeMap<NaiveDate, V>,
+) {
+    let dates: Vec<i32> = map.keys().map(|d| d.num_days_from_ce()).collect();
+    let first = dates.first().copied().unwrap_or(0);
+    let last = dates.last().copied().unwrap_or(0);
+    point_dates(role, name, first, last, map.len(), dates);
+}
